@@ -37,12 +37,18 @@ def load_check(pid: str) -> Check:
 
 
 def load_findings(pid: str) -> list[dict[str, Any]]:
-    path = os.path.join(HOME, "known_findings.json")
-    if not os.path.exists(path):
-        return []
-    with open(path) as fd:
-        data = json.load(fd)
-    return [f for f in data.get("findings", []) if f.get("property") == pid]
+    out: list[dict[str, Any]] = []
+    paths = [os.path.join(HOME, "known_findings.json")]
+    ddir = os.path.join(HOME, "known_findings.d")  # staging area used while drivers are developed
+    if os.path.isdir(ddir):
+        paths += [os.path.join(ddir, fn) for fn in sorted(os.listdir(ddir)) if fn.endswith(".json")]
+    for path in paths:
+        if not os.path.exists(path):
+            continue
+        with open(path) as fd:
+            data = json.load(fd)
+        out += [f for f in data.get("findings", []) if f.get("property") == pid]
+    return out
 
 
 def sig_matches(finding_sig: dict[str, Any], sig: dict[str, Any]) -> bool:
